@@ -505,7 +505,10 @@ def run(c):
         "at t0, off grid), 1-3 forecast variables (subset used), forecasts with forced common prefixes, "
         "1-3 controls (own coarser times, PlanningMixin on top); rational stream = distances exact, "
         "float stream = 2-norm tables computed by the harness (near-ties avoided); distinct = (stream, E, k, "
-        "#branching times, #distinct non-empty member sets, #controls, planning) tuples"
+        "#branching times, #distinct non-empty member sets, #controls, planning) tuples; isolation: per parameter "
+        "the member values are exact coincidences (incl. 0, 1), NEAR coincidences (relative 1e-6..1e-5, absolute "
+        "~1e-8), tiny magnitudes (1e-9..1e-7, witness coefficient scaled by 2^27..2^33) or mixtures of exact and "
+        "near coincidences; perturbations move one member towards / away from exact and near coincidences"
     )
     c.assumptions = [
         "the distance table of a level is data of the model: sum over forecast variables of the 2-norm of the "
@@ -558,6 +561,40 @@ def gen_member_values(rng, E, n, gen):
     return rows
 
 
+TINY = [1e-9, 3e-9, 2e-9, 8e-9, 2e-8, 5e-8, 1e-7, 0.0]
+REL = [0.0, 1e-6, 2e-6, 5e-6, 1e-5, -3e-6, -1e-5]
+ABS = [0.0, 1e-8, 2e-8, -1e-8, 5e-9]
+
+
+def near_of(rng, v):
+    """a value that nearly coincides with v: relative 1e-6..1e-5, absolute ~1e-8, or v itself"""
+    k = rng.choice(["rel", "abs", "same"])
+    if k == "rel" and v != 0.0:
+        return v * (1.0 + rng.choice(REL))
+    if k == "same":
+        return v
+    return v + rng.choice(ABS)
+
+
+def gen_param_column(rng, E):
+    """values of ONE parameter for all members and the witness scale (a power of two, so that the
+    scaled coefficient is exact): exact coincidences, near coincidences, tiny magnitudes, mixtures"""
+    mode = rng.choice(["exact", "exact", "near", "near", "tiny", "tiny", "mixed"])
+    scale = 1.0
+    if mode == "exact":
+        col = [r[0] for r in gen_member_values(rng, E, 1, lambda: pick_val(rng))]
+    elif mode == "near":
+        base = rng.choice([v for v in VALS if v != 0.0])
+        col = [near_of(rng, base) for _ in range(E)]
+    elif mode == "tiny":
+        col = [rng.choice(TINY) for _ in range(E)]
+        scale = float(2 ** rng.choice([27, 30, 33]))  # large coefficient: effect far above any tolerance
+    else:  # exact and near coincidences of different members in one column
+        base = rng.choice([v for v in VALS if v != 0.0])
+        col = [rng.choice([base, base, near_of(rng, base), pick_val(rng)]) for _ in range(E)]
+    return col, mode, scale
+
+
 def gen_iso_data(rng, poly):
     ts = gen_grid(rng, 2, 5)
     n = len(ts)
@@ -588,8 +625,14 @@ def gen_iso_data(rng, poly):
             row.append((d(), (x, rng.choice(states + controls))))
         eqs.append(row)
     for i, y in enumerate(algs):
-        eqs.append([(1.0, (y,)), (-1.0, (params[i], "x0")), (-1.0, (params[i],))])
-    pvals = gen_member_values(rng, E, npar, lambda: pick_val(rng))
+        eqs.append(None)  # witness rows, filled in below once the scales are known
+    cols = [gen_param_column(rng, E) for _ in range(npar)]
+    pvals = [[cols[i][0][m] for i in range(npar)] for m in range(E)]
+    pmodes = [cols[i][1] for i in range(npar)]
+    wscale = [cols[i][2] for i in range(npar)]
+    eqs = [e for e in eqs if e is not None]
+    for i, y in enumerate(algs):  # y_i = K_i p_i x0 + K_i p_i
+        eqs.append([(1.0, (y,)), (-wscale[i], (params[i], "x0")), (-wscale[i], (params[i],))])
     hist_pts = rng.choice([0, 1, 2])
     cin_times = [ts[0] - (hist_pts - j) * 0.5 for j in range(hist_pts)] + list(ts)
     cin = {}
@@ -630,7 +673,7 @@ def gen_iso_data(rng, poly):
     return dict(ts=ts, E=E, states=states, algs=algs, controls=controls, cinputs=cinputs, params=params,
                 eqs=eqs, pvals=pvals, cin_times=cin_times, cin=cin, hist=hist, nom=nom, probs=probs,
                 pobj=pobj, obj=obj, pc_rows=pc_rows, pcb=pcb, pc_kind=pc_kind, pc_ts=pc_ts, ptb=ptb,
-                theta=rng.choice([1.0, 1.0, 1.0, 0.5, 0.0]), poly=poly)
+                theta=rng.choice([1.0, 1.0, 1.0, 0.5, 0.0]), poly=poly, pmodes=pmodes, wscale=wscale)
 
 
 def iso_spec(dt):
@@ -667,6 +710,9 @@ def perturb_other(rng, dt, mstar):
             old = dt["pvals"][mstar][i]
             # move towards / away from a coincidence with another member, or to 0 / 1
             cands = [dt["pvals"][m][i] for m in others] + [0.0, 1.0, old + 1.5]
+            cands += [near_of(rng, dt["pvals"][m][i]) for m in others] + [near_of(rng, old)]
+            if dt["pmodes"][i] == "tiny":
+                cands = [dt["pvals"][m][i] for m in others] + list(TINY)
             new = rng.choice([v for v in cands if v != old] or [old + 1.5])
             d2["pvals"][mstar][i] = new
         elif kind == "input":
@@ -717,9 +763,15 @@ def recover_params(tr, dt, A):
                 for r in range(A.shape[0]):
                     nz = set(np.nonzero(A[r])[0].tolist())
                     if yc[j] in nz and nz <= {yc[j], xc[j]} and tr.lbg[r] == 0 and tr.ubg[r] == 0:
-                        vals.add(float(-A[r, xc[j]] / A[r, yc[j]]) + 0.0)
+                        vals.add(float(-A[r, xc[j]] / A[r, yc[j]] / dt["wscale"][i]) + 0.0)
             out[m][i] = sorted(vals)
     return out
+
+
+def param_eq(v, p):
+    """recovered effective parameter vs expected, tolerance relative to the value's own magnitude"""
+    v, p = float(v), float(p)
+    return abs(v - p) <= 1e-12 * abs(p)
 
 
 def stream_isolation(c, N):
@@ -737,12 +789,14 @@ def stream_isolation(c, N):
         view = dict(stream="isolation", changed_member=mstar, changed=kinds, base=dt, other=d2)
         r1 = call(lambda: Transcription(cls(spec=iso_spec(dt))))
         r2 = call(lambda: Transcription(cls(spec=iso_spec(d2))))
-        c.count(("iso", E, len(dt["params"]), tuple(kinds), poly, dt["theta"], len(dt["states"]),
+        c.count(("iso", E, len(dt["params"]), tuple(kinds), poly, dt["theta"], len(dt["states"]), tuple(dt["pmodes"]),
                  tuple(tuple(dt["pvals"][m][i] == dt["pvals"][0][i] for m in range(E)) for i in range(len(dt["params"])))))
         c.programs += 1
         c.hit("iso/" + ("poly" if poly else "affine"))
         for kd in kinds:
             c.hit("iso/changed-" + kd)
+        for pm in dt["pmodes"]:
+            c.hit("iso/param-column-" + pm)
         c.sample(dict(stream="isolation", changed_member=mstar, changed=kinds, E=E, pvals=dt["pvals"],
                       pvals_other=d2["pvals"], theta=dt["theta"]), limit=6)
         if r1[0] == "raise" or r2[0] == "raise":
@@ -821,7 +875,7 @@ def stream_isolation(c, N):
                 for i in range(len(dd["params"])):
                     if not rec[m][i]:
                         c.hit("route/witness-missing")
-                    elif any(v != dd["pvals"][m][i] for v in rec[m][i]):
+                    elif any(not param_eq(v, dd["pvals"][m][i]) for v in rec[m][i]):
                         c.fail("member %d is transcribed with parameter %s = %r instead of its own %r"
                                % (m, dd["params"][i], rec[m][i], dd["pvals"][m][i]), view)
     outs = c.model(route_lines)
@@ -831,7 +885,7 @@ def stream_isolation(c, N):
             c.hit("route/compared")
             for m in range(dd["E"]):
                 for i in range(len(dd["params"])):
-                    if rec[m][i] and any(Fraction(v) != Fraction(mo["eff"][m][i]) for v in rec[m][i]):
+                    if rec[m][i] and any(not param_eq(v, Fraction(mo["eff"][m][i])) for v in rec[m][i]):
                         c.disagree("effective parameter value", dict(pvals=dd["pvals"], m=m, i=i), mo["eff"], rec)
             for i, isc in enumerate(mo["const"]):
                 c.hit("route/const" if isc else "route/ensemble")
